@@ -5,7 +5,7 @@ import os
 from common import nl_lines, Check, log, tool_error
 from l1 import apply_l1
 from common import CACHE, ensure_oracle, run_harness
-from l3 import l3_run, long_run
+from l3 import l3_run, long_run, race_run
 from mc import replay, run_mc, spec_violation
 
 TIERS = ("quick", "thorough")
@@ -58,7 +58,12 @@ def C13(chk):
 # --------------------------------------------------------------------------------- L1-only parts
 def order_sweep(chk):
     """classification of every value is a function of the value only: ten call orders (four lookups per visit and one lookup per visit), aliases above U+10FFFF, 8 threads"""
-    out, t = run_harness(["ordersweep", "--seed", str(chk.seed)])
+    import shutil
+    scratch = os.path.join(CACHE, "ordersweep-%d" % os.getpid())
+    try:
+        out, t = run_harness(["ordersweep", "--seed", str(chk.seed), "--scratch", scratch, "--lockstep", "3" if chk.tier == "quick" else "30"])
+    finally:
+        shutil.rmtree(scratch, ignore_errors=True)
     osum = None
     for line in out.splitlines():
         d = json.loads(line)
@@ -146,6 +151,8 @@ def C04(chk):
     apply_l1(chk, ["wm", "lc1", "lc3", "bidi"], nontrivial_key="runs")
     l3_run(chk, "usernames-limits", driver="limits", per_string=2, kinds=["enforce"], profiles=profs, seed_offset=5)
     long_run(chk, profiles=profs, ops=["prepare", "enforce"], max_bytes=5000 if q else 70000)
+    l3_run(chk, "usernames-echo", driver="echo", strings=24 if q else 200, profiles=profs, max_len=6, seed_offset=11)
+    race_run(chk, processes=40 if q else 400, long_processes=1 if q else 10, judge=False)
     l3_run(chk, "usernames", strings=1200 if q else 8000, per_string=4, kinds=["enforce", "enforce", "prepare"], profiles=profs)
     if not q:
         import selftest
@@ -171,6 +178,8 @@ def C05(chk):
     apply_l1(chk, ["osp"], nontrivial_key="zs")
     l3_run(chk, "opaque-limits", driver="limits", per_string=2, kinds=["enforce"], profiles=["OPQ"], seed_offset=5)
     long_run(chk, profiles=["OPQ"], ops=ops)
+    l3_run(chk, "opaque-echo", driver="echo", strings=24 if q else 200, profiles=["OPQ"], max_len=6, seed_offset=11)
+    race_run(chk, processes=40 if q else 400, long_processes=1 if q else 10, judge=False)
     l3_run(chk, "opaque", strings=1200 if q else 8000, per_string=3, kinds=["enforce", "enforce", "prepare", "additional_mapping_rule"], profiles=["OPQ"])
     chk.cov["exhaustive"] = True
     chk.cov["rule"] = ("every string of length <= %d over two 9-role alphabets (all kinds of spaces incl. controls; compatibility, "
@@ -194,6 +203,8 @@ def C06(chk):
     apply_l1(chk, ["nsp"], nontrivial_key="zs")
     l3_run(chk, "nickname-limits", driver="limits", per_string=2, kinds=["enforce"], profiles=["NICK"], seed_offset=5)
     long_run(chk, profiles=["NICK"], ops=ops)
+    l3_run(chk, "nickname-echo", driver="echo", strings=24 if q else 200, profiles=["NICK"], max_len=6, seed_offset=11)
+    race_run(chk, processes=40 if q else 400, long_processes=1 if q else 10, judge=False)
     l3_run(chk, "nickname", strings=1200 if q else 8000, per_string=3, kinds=["enforce", "enforce", "prepare"], profiles=["NICK"], max_len=10)
     chk.cov["exhaustive"] = True
     chk.cov["rule"] = ("every string of length <= %d over a space alphabet (incl. U+00A8 whose NFKC introduces a leading space, so that "
@@ -213,6 +224,8 @@ def C10(chk):
                 invariants=["Agree", "MappingsAgree"], frame=(8, 3, 1, ("a", "eac", "han")) if q else (17, 5, 2, ("a", "eac", "han")))
     apply_l1(chk, ["lc"], nontrivial_key="lower")
     long_run(chk, profiles=["UCM", "NICK"], ops=["case_mapping_rule"])
+    l3_run(chk, "case-echo", driver="echo", strings=24 if q else 200, profiles=["UCM"], max_len=6, seed_offset=11)
+    race_run(chk, processes=40 if q else 400, long_processes=1 if q else 10, judge=False)
     l3_run(chk, "case", strings=1000 if q else 6000, per_string=3, kinds=["case_mapping_rule", "case_mapping_rule", "enforce"], profiles=["UCM", "NICK"])
     chk.cov["exhaustive"] = True
     chk.cov["rule"] = ("every string of length <= %d over {lowercase, uppercase, titlecase (U+1F88, U+01C5), U+0130 (one-to-many), "
@@ -232,6 +245,8 @@ def C11(chk):
                 invariants=["Agree", "MappingsAgree"], frame=(9, 3, 1, ("a", "han")) if q else (17, 5, 2, ("a", "eac", "han")))
     apply_l1(chk, ["wm"], nontrivial_key="wm")
     long_run(chk, profiles=["UCM", "UCP"], ops=["width_mapping_rule", "prepare"])
+    l3_run(chk, "width-echo", driver="echo", strings=24 if q else 200, profiles=["UCM", "UCP"], max_len=6, seed_offset=11)
+    race_run(chk, processes=40 if q else 400, long_processes=1 if q else 10, judge=False)
     l3_run(chk, "width", strings=1000 if q else 6000, per_string=3, kinds=["width_mapping_rule", "width_mapping_rule", "prepare"], profiles=["UCM", "UCP"])
     chk.cov["exhaustive"] = True
     chk.cov["rule"] = ("every string of length <= %d over {ASCII, fullwidth upper/lower, halfwidth katakana, ideographic space, other "
@@ -253,6 +268,8 @@ def C12(chk):
                 invariants=["Agree", "MappingsAgree", "MappingsIdempotent"], frame=(8, 3, 2, ("a", "eac")) if q else (9, 9, 3, ("a", "eac", "SP")))
     apply_l1(chk, ["osp", "nsp"], nontrivial_key="zs")
     long_run(chk, profiles=["NICK", "OPQ"], ops=["additional_mapping_rule"])
+    l3_run(chk, "spaces-echo", driver="echo", strings=24 if q else 200, profiles=["NICK", "OPQ"], max_len=6, seed_offset=11)
+    race_run(chk, processes=40 if q else 400, long_processes=1 if q else 10, judge=False)
     l3_run(chk, "spaces", strings=1000 if q else 6000, per_string=3, kinds=["additional_mapping_rule", "additional_mapping_rule", "enforce"], profiles=["NICK", "OPQ"], max_len=10)
     chk.cov["exhaustive"] = True
     chk.cov["rule"] = ("every string of length <= %d over {SP, NBSP (2-byte Zs), OGHAM (3-byte Zs), 1/2/3/4-byte non-spaces} through both "
@@ -370,7 +387,11 @@ def C07(chk):
                    harness_args=["--forms"], timeout=3000)
         generic_mc(chk, "MC_Compare", "normalization3", ["e", "acute", "Eac", "angst", "rom4", "dotI"], {"MaxLen": 3, "Profs": profs}, invs, (0, 1),
                    harness_args=["--forms"], timeout=3000)
+    # the mapping rules that define the equivalence classes of compare, per code point
+    apply_l1(chk, ["wm", "lc", "osp", "nsp"], nontrivial_key="runs")
     long_run(chk, ops=["compare"], max_bytes=5000 if q else 70000, name="long-compare")
+    l3_run(chk, "compare-echo", driver="echo", strings=16 if q else 120, max_len=6, seed_offset=11)
+    race_run(chk, processes=40 if q else 400, long_processes=1 if q else 10, judge=False)
     l3_run(chk, "families", driver="families", strings=60 if q else 700, profiles=["UCM", "UCP", "OPQ", "NICK"])
     chk.cov["exhaustive"] = True
     chk.cov["rule"] = ("every ordered pair of strings of length <= 2 (thorough: <= 3) over alphabets mixing case/width/spacing variants, "
@@ -466,6 +487,8 @@ def C08(chk):
     chk.sample({"layer": "sweep", "summary": summary})
     l3_run(chk, "enforce-limits", driver="limits", per_string=2, kinds=["enforce"], profiles=allp, seed_offset=5)
     long_run(chk, profiles=allp, ops=["enforce"])
+    l3_run(chk, "enforce-echo", driver="echo", strings=24 if q else 200, profiles=allp, max_len=6, seed_offset=11)
+    race_run(chk, processes=40 if q else 400, long_processes=1 if q else 10, judge=False)
     info = l3_run(chk, "enforce-all", strings=600 if q else 8000, per_string=3, kinds=["enforce"], profiles=allp)
     chk.cov["rule"] = ("model: OutputClean and NoDrift on every enforce behaviour over alphabets of cased / decomposable / compatibility "
                        "characters (strings <= %d, 4 profiles), plus a configuration showing the invariant depends on the closure "
@@ -482,8 +505,13 @@ def C01(chk):
     profiles_mc(chk, "bytes", ["a", "eac", "han", "emo", "SP", "NBSP", "OGH", "A"], n, allp, ops, (0, 1), invariants=["Agree", "MappingsAgree", "AllowsAgree"])
     profiles_mc(chk, "bytes-framed", ["a", "eac", "han", "emo", "SP", "NBSP", "heb", "A", "FWA"], 0, allp, ["prepare", "enforce"], (0,),
                 invariants=["Agree", "MappingsAgree"], frame=(9, 2, 1, ("a", "eac")) if q else (9, 4, 2, ("a", "eac", "han")))
-    out, t = run_harness(["c01sweep", "--oracle", ensure_oracle(), "--seed", str(chk.seed), "--max-len", "4" if q else "6",
-                          "--random", "20000" if q else "300000"])
+    import shutil
+    deep_scratch = os.path.join(CACHE, "c01deep-%d" % os.getpid())
+    try:
+        out, t = run_harness(["c01sweep", "--oracle", ensure_oracle(), "--seed", str(chk.seed), "--max-len", "4" if q else "6",
+                              "--random", "20000" if q else "300000", "--scratch", deep_scratch])
+    finally:
+        shutil.rmtree(deep_scratch, ignore_errors=True)
     summary = None
     for line in nl_lines(out):
         d = json.loads(line)
@@ -643,7 +671,12 @@ def C16(chk):
     generic_mc(chk, "MC_Compare", "forms-compare", ["a", "A", "SP", "TAB", "unas", "FWA"], {"MaxLen": 2, "Profs": tla_set(allp)},
                ["ResultRule", "Symmetric"], (0,), harness_args=["--forms"])
     # (2b) history independence of classification: every scalar value in six different call orders and on 8 threads
-    out, t = run_harness(["ordersweep", "--seed", str(chk.seed)])
+    import shutil
+    scratch = os.path.join(CACHE, "ordersweep-%d" % os.getpid())
+    try:
+        out, t = run_harness(["ordersweep", "--seed", str(chk.seed), "--scratch", scratch, "--lockstep", "3" if q else "30"])
+    finally:
+        shutil.rmtree(scratch, ignore_errors=True)
     osum = None
     for line in nl_lines(out):
         d = json.loads(line)
@@ -662,6 +695,7 @@ def C16(chk):
     # (3b) volume: concurrent results against the sequential reference, first use racing in every fresh process
     from l3 import race_run
     race_run(chk, processes=120 if q else 1500, long_processes=4 if q else 40)
+    l3_run(chk, "echo", driver="echo", strings=40 if q else 400, max_len=6, seed_offset=11)
     # (4) single-threaded histories: several different calls on the same string in a row
     l3_run(chk, "histories", strings=1000 if q else 6000, per_string=6, max_len=6)
     chk.cov["rule"] = ("design: the session machine (threads x Once cells of the lazy statics x API forms), every interleaving of 3 threads x 1 "
